@@ -3,6 +3,7 @@ import re
 from engine.core import AnalysisBroken, P, T, callee_of, callee_short, cond_atoms, loc_of, strip, subexprs, block_path
 from engine.kinds import FactFlow, precedes_on_all_paths, eval_walk, cond_leaves, CountFlow, loop_of
 from .common import facts, lib
+from engine.core import REPO as core_REPO
 
 EXPLANATION = (
     "Static analysis of the current source. Decided: for every setting of the property (threads, cores, bind, affinity, "
@@ -599,7 +600,7 @@ def run(rep, tier):
                     for e in ss_.blocks[tdst[0]].events:
                         if e.get("k") == "write" and strip(e.get("rhs") or {}).get("k") == "enum":
                             pol = strip(e["rhs"]).get("name") or T(e["rhs"]).rsplit("::", 1)[-1]
-                here = [loc_of(e) for e in blk.events if str(e.get("loc", "")).startswith("/repo/")]
+                here = [loc_of(e) for e in blk.events if str(e.get("loc", "")).startswith(core_REPO + "/")]
                 chain.append((lits[0], pol, here[-1] if here else ss_.loc))
                 nxt = fdst[0] if fdst else None
         if nxt is None:
